@@ -11,6 +11,9 @@ for idx, name in enumerate(sorted(os.listdir(root))):
         continue
     d = os.path.join(root, name)
     meta = json.load(open(os.path.join(d, "meta.json")))
+    if meta.get("documented_uncaught"):
+        print("%-6s %-4s %-7s %s" % (name, "-", "uncaught (documented)", meta["documented_uncaught"][:100]), flush=True)
+        continue
     check = meta.get("verified_by_coordinator", {}).get("check") or meta.get("property")
     p = subprocess.run(["/verif/tools/seeded.py", d, check, budget, "--no-demo"], capture_output=True, text=True)
     txt = p.stdout[p.stdout.find("{"):] if "{" in p.stdout else "{}"
